@@ -742,8 +742,11 @@ func (b *BaseStore) LoadFromSnapshot(ctx context.Context) error {
 			entries = append(entries, &entry.Entry{Hash: h})
 		}
 
-		if err := b.Sync(ctx, entries); err != nil {
-			return fmt.Errorf("unable to sync queued CIDs: %w", err)
+		// only the hashes are known: hand them to the replicator, which
+		// fetches and verifies the entries (Sync needs complete heads)
+		if len(entries) > 0 {
+			verifhook.At("store.sync.spawn", b)
+			go b.Replicator().Load(ctx, entries)
 		}
 	}
 
